@@ -30,8 +30,18 @@ def arrays(seed):
     As, Os, _ = op.pupil_arrays((3, 3), 'full', seed, tag=4)
     # smooth-ish OPD with real tilt for the fit_tilt variants
     rr, cc = np.meshgrid(np.arange(S[0]) - S[0] // 2, np.arange(S[1]) - S[1] // 2, indexing='ij')
+    rr = rr.astype(float)
     Ot = O1 + (0.11 * rr - 0.07 * cc) * WL
-    return dict(A1=A1, O1=O1, A2=A2, O2=O2, A3=A3 * (seg.sum(0) > 0), O3=O3, M1=M1, seg=seg, As=As, Os=Os, Ot=Ot)
+    # three segments whose fitted tilts displace their image windows by 0, 1 and 2 samples (prop_small: a 2x2 window),
+    # so that the output Fields overlap as a chain: A~B, B~C, but not A~C
+    seg3 = np.zeros((3,) + S)
+    seg3[0][:, 0:2] = 1
+    seg3[1][0:2, 2:4] = 1
+    seg3[2][2:4, 2:4] = 1; seg3[2][:, 4] = 1
+    O3t = np.array(O3, copy=True) * 0.25
+    for k in range(3):
+        O3t = O3t + seg3[k] * (k * DU / 1.0) * rr * DX
+    return dict(A1=A1, O1=O1, A2=A2, O2=O2, A3=A3 * (seg.sum(0) > 0), O3=O3, M1=M1, seg=seg, As=As, Os=Os, Ot=Ot, seg3=seg3, O3t=O3t)
 
 
 def make_plane(name, seed):
@@ -57,6 +67,12 @@ def make_plane(name, seed):
             opd = np.array(p.opd, copy=True)     # fit_tilt itself is judged by C04; the residual OPD is read back
         return p, dict(info, ptype='pupil', z=1.0, ps=DX, amp=a['A3'], opd=opd, mask=a['seg'].sum(0) > 0,
                        tilt=1 if name == 'seg_fit' else 0)
+    if name == 'seg3_fit':
+        p = lentil.Pupil(amplitude=c(a['A2']), opd=c(a['O3t']), mask=c(a['seg3']), pixelscale=DX, focal_length=1.0).fit_tilt()
+        return p, dict(info, ptype='pupil', z=1.0, ps=DX, amp=a['A2'], opd=np.array(p.opd, copy=True), tilt=1)
+    if name == 'seg_scalar':
+        return (lentil.Pupil(amplitude=0.5, opd=c(a['O3']), mask=c(a['seg']), pixelscale=DX, focal_length=1.0),
+                dict(info, ptype='pupil', z=1.0, ps=DX, amp=0.5, opd=a['O3'], mask=a['seg'].sum(0) > 0))
     if name == 'pupil_fit':
         p = lentil.Pupil(amplitude=c(a['A1']), opd=c(a['Ot']), pixelscale=DX, focal_length=1.0).fit_tilt()
         return p, dict(info, ptype='pupil', z=1.0, ps=DX, amp=a['A1'], opd=np.array(p.opd, copy=True), mask=a['A1'] != 0, tilt=1)
@@ -81,9 +97,10 @@ def make_plane(name, seed):
     raise ValueError(name)
 
 
-PLANES = ['plane0', 'pupil', 'pupil2', 'seg', 'seg_fit', 'pupil_fit', 'mask_scalar', 'mask_opd', 'amp_mask', 'opd_only',
+PLANES = ['plane0', 'pupil', 'pupil2', 'seg', 'seg_fit', 'seg3_fit', 'seg_scalar', 'pupil_fit', 'mask_scalar', 'mask_opd', 'amp_mask', 'opd_only',
           'small', 'tilt', 'image', 'px_other']
-PROPS = {'prop': dict(shape=(3, 4), prop_shape=None, oversample=2), 'prop_win': dict(shape=(5, 5), prop_shape=(2, 3), oversample=1)}
+PROPS = {'prop': dict(shape=(3, 4), prop_shape=None, oversample=2), 'prop_win': dict(shape=(5, 5), prop_shape=(2, 3), oversample=1),
+         'prop_small': dict(shape=(6, 6), prop_shape=(2, 2), oversample=1)}
 
 
 def recentre(field, shape_from, shape_to):
@@ -125,7 +142,7 @@ def enabled(st):
         return []
     ev = []
     for p in PLANES:
-        pt = {'pupil': 'pupil', 'pupil2': 'pupil', 'seg': 'pupil', 'seg_fit': 'pupil', 'pupil_fit': 'pupil', 'tilt': 'tilt',
+        pt = {'pupil': 'pupil', 'pupil2': 'pupil', 'seg': 'pupil', 'seg_fit': 'pupil', 'seg3_fit': 'pupil', 'seg_scalar': 'pupil', 'pupil_fit': 'pupil', 'tilt': 'tilt',
               'image': 'image'}.get(p, 'none')
         if (m['ptype'], pt) in MUL_TABLE:
             ev.append(p)
@@ -276,6 +293,12 @@ def check(st, hist, acc):
             acc.violation('view:field-vs-render', case, f'.field differs from the sum of its Fields by {rm.maxerr(fld, val):.3e}')
         if cnt.max(initial=0) > 1:
             acc.cls('overlapping-fields')
+            if len(w.data) >= 3:
+                import lentil.extent as le
+                ex = [f.extent for f in w.data]
+                pairs = [(i, j) for i in range(len(ex)) for j in range(i + 1, len(ex)) if le.intersect(ex[i], ex[j])]
+                if 0 < len(pairs) < len(ex) * (len(ex) - 1) // 2:
+                    acc.cls('chain-overlapping-fields')
         iref = np.abs(val) ** 2
     else:
         iref = np.abs(fld) ** 2
@@ -367,7 +390,7 @@ def run(tier, seed, acc, procs=None):
                         'fit_tilt residual OPD is read back from the plane (C04 decides fit_tilt)',
                         'after propagating a wavefront that carries tilt the model field is unknown: only view-consistency is checked there',
                         'a state whose implementation disagrees with the model is reported once and not expanded further'],
-        'require': {'overlapping-fields': 5, 'nfields=2': 10},
+        'require': {'overlapping-fields': 5, 'nfields=2': 10, 'chain-overlapping-fields': 2},
     }
 
 
